@@ -803,6 +803,184 @@ def vec_replay(v, detail):
     return rep
 
 
+# ------------------------------------------------------------------------------ direction T: random stimuli, TLC judges
+def mutate_bytes(rng, base, maxlen=40):
+    b = list(base)
+    k = rng.randrange(8)
+    if k == 0 or not b:
+        return [rng.randrange(256) for _ in range(rng.randrange(0, max(4, min(maxlen, 2 * len(b) + 3))))]
+    if k == 1:
+        return b[:rng.randrange(len(b) + 1)]
+    if k == 2:
+        return b + [rng.randrange(256) for _ in range(rng.randrange(1, 4))]
+    if k == 3:
+        i = rng.randrange(len(b))
+        b[i] ^= 1 << rng.randrange(8)
+        return b
+    if k == 4:
+        i = rng.randrange(len(b))
+        n = rng.choice([1, 2, 3, 4, 8])
+        x = rng.choice([0, 255])
+        for j in range(i, min(len(b), i + n)):
+            b[j] = x
+        return b
+    if k == 5:
+        i = rng.randrange(len(b))
+        b[i] = rng.randrange(256)
+        return b
+    if k == 6:
+        i = rng.randrange(len(b) + 1)
+        return b[:i] + [rng.randrange(256) for _ in range(rng.randrange(1, 5))] + b[i:]
+    i = rng.randrange(len(b))
+    j = rng.randrange(i, len(b))
+    return b[:i] + b[j:]
+
+
+def mutate_native(rng, v, key=None):
+    if v is None:
+        return None
+    if isinstance(v, int):
+        k = rng.randrange(6)
+        if k == 0:
+            return v
+        if k == 1:
+            return rng.randrange(256)
+        if k == 2:
+            return rng.choice([0, 1, 0x7f, 0x80, 0xff, 0x100, 0xffff, 0x10000, 0xffffff, 0x1000000, 0xffffffff,
+                               1 << 32, (1 << 63) - 1, 1 << 63, (1 << 64) - 1])
+        return rng.getrandbits(rng.choice([3, 8, 12, 16, 24, 32, 48, 64]))
+    if isinstance(v, list):
+        if key == "payload":
+            return [rng.randrange(256) for _ in range(rng.choice([0, 1, 2, 3, 7, 8, 16, 31, 255, 256]))]
+        out = [mutate_native(rng, x) for x in v]
+        k = rng.randrange(5)
+        if k == 0 and out:
+            out = out + [out[rng.randrange(len(out))]] * rng.choice([1, 2, 5])
+        elif k == 1 and out:
+            out = out[:rng.randrange(len(out))]
+        return out
+    if isinstance(v, dict):
+        return {k: mutate_native(rng, x, k) for k, x in v.items()}
+    return v
+
+
+def rust_res_event(x, decode):
+    """normalise one harness sub-result into the uniform event result record"""
+    ev = dict(kind="abnormal", cls="", val=native_to_node(None), rest=0, bytes=[])
+    if not isinstance(x, dict) or "abnormal" in x:
+        return ev
+    if "ok" in x:
+        ev["kind"] = "ok"
+        if decode:
+            ev["val"] = native_to_node(x["ok"])
+            ev["rest"] = x.get("rest", 0)
+        else:
+            ev["bytes"] = x["ok"]
+    else:
+        ev["kind"] = "err"
+        ev["cls"] = RUST_DEC.get(x.get("err"), x.get("err") or "")
+    return ev
+
+
+def t_stage(prop, ctx, units, bins, vecs, info, rep, per_type):
+    """seeded random stimuli -> real code -> recorded events -> TLC accepts or rejects each"""
+    rng = random.Random(ctx.seed * 7919 + 17)
+    pos = {u.name: k + 1 for k, u in enumerate(units)}
+    base_bytes, base_vals = {}, {}
+    for v in vecs:
+        key = (v["unit"].name, v["type"])
+        if v["k"] == "dec" and v.get("label") == ["valid"]:
+            base_bytes.setdefault(key, []).append(v["bytes"])
+        if v["k"] == "enc":
+            if not v["faults"]:
+                base_bytes.setdefault(key, []).append(v["bytes"])
+            base_vals.setdefault(key, []).append(node_to_native(v["val"]))
+    want_dec = prop in ("C01", "C04", "C18")
+    want_enc = prop in ("C02", "C03", "C05", "C18")
+    reqs = []
+    for u in units:
+        if u.name not in bins or not info.get(u.name, {}).get("rust"):
+            continue
+        for t in u.types():
+            key = (u.name, t)
+            if want_dec:
+                bb = base_bytes.get(key) or [[]]
+                for _ in range(per_type):
+                    reqs.append(dict(rid=len(reqs), desc=u.name, type=t, op="decode",
+                                     bytes=mutate_bytes(rng, rng.choice(bb))))
+            if want_enc and base_vals.get(key):
+                for _ in range(per_type):
+                    reqs.append(dict(rid=len(reqs), desc=u.name, type=t, op="encode", prefix=PREFIX,
+                                     value=mutate_native(rng, rng.choice(base_vals[key]))))
+    obs = run_rust(bins, reqs, tag="rnd")
+    events, origin = [], []
+    for r in reqs:
+        o = obs.get(r["rid"], {})
+        rr = o.get("r", {})
+        if r["op"] == "decode":
+            top_abn = "abnormal" in o or _abn(rr)
+            for op in ("decode", "decode_full"):
+                x = {"abnormal": 1} if top_abn else rr.get(op)
+                events.append(dict(op=op, d=pos[r["desc"]], type=r["type"], bytes=r["bytes"], val=native_to_node(None),
+                                   res=rust_res_event(x, True)))
+                origin.append((r, o, op))
+        else:
+            if "unconstructible" in rr:
+                continue
+            top_abn = "abnormal" in o or _abn(rr)
+            x = {"abnormal": 1} if top_abn else rr.get("vec")
+            events.append(dict(op="encode", d=pos[r["desc"]], type=r["type"], bytes=[], val=native_to_node(r["value"]),
+                               res=rust_res_event(x, False)))
+            origin.append((r, o, "encode"))
+    if not events:
+        return
+    tr = os.path.join(ctx.tmp, "trace.ndjson")
+    write_ndjson(tr, events)
+    descs_p = os.path.join(ctx.tmp, "descs.ndjson")
+    write_ndjson(descs_p, [u.desc for u in units])
+    lines, stats = tlc("Trace_Codec", "Trace_Codec.cfg", dict(DESCS=descs_p, TRACE=tr), tag="trace")
+    rep.tlc_stats(stats)
+    rejected = {x["l"]: x for x in parse_tagged(lines, "REJECT")}
+    rep.notes["trace_events"] = rep.notes.get("trace_events", 0) + len(events)
+    rep.notes["trace_events_rejected"] = rep.notes.get("trace_events_rejected", 0) + len(rejected)
+    for i, ev in enumerate(events):
+        rep.validated()
+        if (i + 1) not in rejected:
+            continue
+        r, o, op = origin[i]
+        exp = rejected[i + 1]["expected"]
+        res = ev["res"]
+        if res["kind"] == "abnormal":
+            owner = "C01" if op != "encode" else "C05"
+            kind = "%s_abnormal:random" % ("decode" if op != "encode" else "encode")
+        elif op == "encode":
+            owner = "C03" if not exp["faults"] else "C05"
+            kind = "trace_encode_%s_expected_%s" % (res["kind"] + (":" + res["cls"] if res["cls"] else ""),
+                                                    "+".join(sorted(exp["faults"])) or "ok")
+        else:
+            owner = "C04"
+            kind = "trace_%s_%s_expected_%s" % (op, res["kind"] + (":" + res["cls"] if res["cls"] else ""),
+                                                "+".join(sorted(exp["faults"])) or "ok")
+        if owner != prop and not (prop == "C18" and False):
+            continue
+        detail = o.get("r", o)
+        msg = ""
+        if isinstance(detail, dict):
+            for kk in ("decode", "vec"):
+                if isinstance(detail.get(kk), dict) and detail[kk].get("msg"):
+                    msg = detail[kk]["msg"]
+            if detail.get("msg"):
+                msg = detail["msg"]
+        fp = "%s|rust|%s|%s|%s|random%s" % (prop, r["desc"], r["type"], kind,
+                                            ("|" + __import__("re").sub(r"[0-9]+", "N", msg)[:80]) if msg else "")
+        u = units[pos[r["desc"]] - 1]
+        rep.violation(fp, {"backend": "rust", "desc": u.desc, "pdl": u.src, "type": r["type"], "op": op,
+                           "stimulus": {"bytes": hexs(r["bytes"])} if "bytes" in r else {"value": r["value"]},
+                           "expected": {"faults": exp["faults"], "value": node_to_native(exp["val"]),
+                                        "rest": exp["rest"], "bytes": hexs(exp["bytes"])},
+                           "observed": detail, "direction": "trace"})
+
+
 CODEC_MODES = {
     "C01": ["dec"], "C02": ["enc"], "C03": ["enc"], "C04": ["dec"], "C05": ["enc", "bad"], "C18": ["enc", "dec", "bad"],
 }
@@ -844,6 +1022,8 @@ def check_rust_codec(prop, ctx):
             rep.sample({"desc": v["unit"].name, "type": v["type"], "op": v["k"], "label": v.get("label"),
                         "stimulus": hexs(v["bytes"]) if v["k"] == "dec" else node_to_native(v["val"]),
                         "expected": v["faults"] if v["k"] == "enc" else v["full"]})
+    if prop != "C18":
+        t_stage(prop, ctx, units, bins, vecs, info, rep, 8 if ctx.tier == "quick" else 120)
     rep.notes["descriptions"] = len(units)
     rep.notes["descriptions_rust_supported_and_compiled"] = len(bins)
     rep.notes["vectors_by_label"] = kinds
@@ -1077,7 +1257,59 @@ def check_c06(ctx):
     return rep.finish()
 
 
+# ------------------------------------------------------------------------------ C17 endianness duality
+def dual(b, chunks):
+    """reverse the octets of each chunk (data movement only; the chunk map comes from TLC)"""
+    out = list(b)
+    for c in chunks:
+        o, n = c["o"], c["n"]
+        out[o:o + n] = out[o:o + n][::-1]
+    return out
+
+
+def check_c17(ctx):
+    rep = Report("C17", ctx.tier, ctx.seed)
+    units, bins = prepare_rust_units(ctx, ctx.tier)
+    vecs, info = gen_vectors(ctx, units, ["enc"], rep)
+    usable = [v for v in vecs if info.get(v["unit"].name, {}).get("rust") and v["unit"].name in bins
+              and not v["faults"]]
+    obs = run_rust(bins, rust_requests(usable), tag="dual")
+    pairs = {}
+    for v in usable:
+        key = (v["unit"].desc["name"], v["type"], json.dumps(v["val"], sort_keys=True))
+        pairs.setdefault(key, {})[v["unit"].desc["endian"]] = v
+    for key, pr in pairs.items():
+        if "little" not in pr or "big" not in pr:
+            continue
+        vl, vb = pr["little"], pr["big"]
+        rl, rb = obs[vl["rid"]].get("r", {}), obs[vb["rid"]].get("r", {})
+        bl = (rl.get("vec") or {}).get("ok") if isinstance(rl.get("vec"), dict) else None
+        bb = (rb.get("vec") or {}).get("ok") if isinstance(rb.get("vec"), dict) else None
+        rep.validated()
+        if bl is None or bb is None:
+            continue     # an encoder that fails on a well-formed value is C03/C05's finding
+        kind = None
+        if len(bl) != len(bb):
+            kind = "length_differs"
+        elif bb != dual(bl, vl["chunks"]):
+            kind = "not_chunkwise_reversal"
+        if kind:
+            rep.violation("C17|rust|%s|%s|%s" % (key[0], key[1], kind),
+                          {"backend": "rust", "desc": vl["unit"].desc, "pdl": vl["unit"].src, "type": key[1],
+                           "stimulus": {"value": node_to_native(vl["val"])},
+                           "expected": {"chunks": vl["chunks"], "big_from_little": hexs(dual(bl, vl["chunks"]))},
+                           "observed": {"little": hexs(bl), "big": hexs(bb)}})
+        elif rep.coverage["traces_validated_against_impl"] % 499 == 1:
+            rep.sample({"desc": key[0], "type": key[1], "value": node_to_native(vl["val"]), "chunks": vl["chunks"],
+                        "little": hexs(bl), "big": hexs(bb)})
+    rep.notes["value_pairs"] = len(pairs)
+    rep.notes["backends"] = ["rust"]
+    rep.assumptions += ["chunk map computed by TLC (spec/PdlCodec.tla `chunks`); DualityInv checked on the model for every vector"]
+    return rep.finish()
+
+
 CHECKS = {p: (lambda ctx, p=p: check_rust_codec(p, ctx)) for p in CODEC_MODES}
+CHECKS["C17"] = check_c17
 CHECKS["C15"] = check_c15
 CHECKS["C06"] = check_c06
 
